@@ -206,7 +206,10 @@ static int mfp_load(struct module_data *m, HIO_HANDLE *f, const int start)
 	/* Read samples */
 	D_(D_INFO "Loading samples: %d", mod->ins);
 
-	/* first check smp.filename */
+	/* first check smp.filename (only known when loading by path) */
+	if (m->basename == NULL || m->dirname == NULL) {
+		goto err;
+	}
 	if (strlen(m->basename) < 5 || m->basename[3] != '.') {
 		D_(D_CRIT "invalid filename %s", m->basename);
 		goto err;
